@@ -3,9 +3,12 @@ package main
 import (
 	"encoding/json"
 	"fmt"
+	"go/ast"
+	"go/constant"
 	"go/parser"
 	"go/token"
 	"go/types"
+	"regexp"
 	"os"
 	"path/filepath"
 	"sort"
@@ -97,7 +100,27 @@ func preParse(dirs []string, overlay map[string][]byte) *ContractSet {
 	return cs
 }
 
+var lastPkgs []*packages.Package
+var lastPkgsMu sync.Mutex
+
 func loadProgram(pkgPaths []string, overlay map[string][]byte) (*ssa.Program, error) {
+	prog, pkgs, err := loadProgramPkgs(pkgPaths, overlay)
+	_ = pkgs
+	return prog, err
+}
+
+func loadProgramPkgs(pkgPaths []string, overlay map[string][]byte) (*ssa.Program, []*packages.Package, error) {
+	prog, err := loadProgram0(pkgPaths, overlay, func(p []*packages.Package) {
+		lastPkgsMu.Lock()
+		lastPkgs = p
+		lastPkgsMu.Unlock()
+	})
+	lastPkgsMu.Lock()
+	defer lastPkgsMu.Unlock()
+	return prog, lastPkgs, err
+}
+
+func loadProgram0(pkgPaths []string, overlay map[string][]byte, keep func([]*packages.Package)) (*ssa.Program, error) {
 	cfg := &packages.Config{Mode: packages.LoadAllSyntax, Dir: repoDir, BuildFlags: []string{"-tags=verif"}, Overlay: overlay}
 	pkgs, err := packages.Load(cfg, pkgPaths...)
 	if err != nil {
@@ -114,6 +137,9 @@ func loadProgram(pkgPaths []string, overlay map[string][]byte) (*ssa.Program, er
 	}
 	prog, _ := ssautil.AllPackages(pkgs, ssa.InstantiateGenerics|ssa.GlobalDebug)
 	prog.Build()
+	if keep != nil {
+		keep(pkgs)
+	}
 	return prog, nil
 }
 
@@ -274,8 +300,17 @@ func runCheckFull(o CheckOpts) (cr CheckResult) {
 			}
 		}
 	}
+	var myTables []*TableCheck
+	for _, t := range pre.Tables {
+		for _, tg := range t.Tags {
+			if tg == o.Prop && (o.Only == "" || strings.Contains(t.Var, o.Only)) {
+				myTables = append(myTables, t)
+				pkgSet[t.Pkg] = true
+			}
+		}
+	}
 	expected := readExpected(o.Prop)
-	if len(mine) == 0 && len(myConsts) == 0 {
+	if len(mine) == 0 && len(myConsts) == 0 && len(myTables) == 0 {
 		if len(expected) > 0 && o.Only == "" {
 			violate("contract-files", "contract-does-not-bind", "no contract carries tag "+o.Prop+" any more", false, nil)
 		} else {
@@ -297,7 +332,7 @@ func runCheckFull(o CheckOpts) (cr CheckResult) {
 	sort.Strings(pkgPaths)
 	var reports []*FnReport
 	if len(pkgPaths) > 0 {
-		prog, err := loadProgram(pkgPaths, o.Overlay)
+		prog, pkgs, err := loadProgramPkgs(pkgPaths, o.Overlay)
 		if err != nil {
 			return engineFail("cannot load /repo with -tags=verif: " + err.Error())
 		}
@@ -315,6 +350,9 @@ func runCheckFull(o CheckOpts) (cr CheckResult) {
 		reports = verifyAll(prog, ix, mine, all, pre.Preds, findings, o)
 		if len(myConsts) > 0 {
 			reports = append(reports, checkConsts(prog, myConsts))
+		}
+		if len(myTables) > 0 {
+			reports = append(reports, checkTables(pkgs, myTables))
 		}
 	}
 	// ---- verdicts ---------------------------------------------------------
@@ -755,4 +793,105 @@ func checkConsts(prog *ssa.Program, cs []ConstCheck) *FnReport {
 		rep.Results = append(rep.Results, r)
 	}
 	return rep
+}
+
+// checkTables discharges the data obligations on string tables by reading the
+// composite literal that initialises the package-level variable.
+func checkTables(pkgs []*packages.Package, ts []*TableCheck) *FnReport {
+	rep := &FnReport{Name: "tables", Mode: "ground"}
+	byPath := map[string]*packages.Package{}
+	packages.Visit(pkgs, nil, func(p *packages.Package) { byPath[p.PkgPath] = p })
+	add := func(name, verdict, model string) {
+		rep.Results = append(rep.Results, Result{Name: name, Group: name, Kind: "table", Fn: "tables", Solver: "go/ast", Verdict: verdict, Model: model})
+	}
+	for _, t := range ts {
+		base := pkgLabel(t.Pkg) + ".table:" + t.Var
+		p := byPath[t.Pkg]
+		var keys map[string]bool
+		if p != nil {
+			keys = stringTableKeys(p, t.Var)
+		}
+		if keys == nil {
+			add(base+"/table:bind", "error:table variable "+t.Var+" not found or not a string table literal", "")
+			continue
+		}
+		for _, w := range t.Contains {
+			if keys[w] {
+				add(base+"/table:contains:"+w, "unsat", "")
+			} else {
+				add(base+"/table:contains:"+w, "sat", "the table does not reserve "+w)
+			}
+		}
+		for _, sfx := range t.NoSuffix {
+			// the escaped spelling of a reserved word E is E+sfx: it must not be
+			// reserved itself
+			bad := ""
+			for k := range keys {
+				if keys[k+sfx] {
+					bad = k + sfx
+				}
+			}
+			if bad == "" {
+				add(base+"/table:none-suffix:"+sfx, "unsat", "")
+			} else {
+				add(base+"/table:none-suffix:"+sfx, "sat", "entry "+bad+" is the escaped form of another entry")
+			}
+		}
+		for _, re := range t.NoMatch {
+			rx, err := regexp.Compile(re)
+			if err != nil {
+				add(base+"/table:none-match:"+re, "error:bad pattern", "")
+				continue
+			}
+			bad := ""
+			for k := range keys {
+				if rx.MatchString(k) {
+					bad = k
+				}
+			}
+			if bad == "" {
+				add(base+"/table:none-match:"+re, "unsat", "")
+			} else {
+				add(base+"/table:none-match:"+re, "sat", "entry "+bad+" matches "+re)
+			}
+		}
+	}
+	return rep
+}
+
+// stringTableKeys returns the string keys/elements of the composite literal that
+// initialises package-level variable name (map[string]T{...} or []string{...}).
+func stringTableKeys(p *packages.Package, name string) map[string]bool {
+	for _, f := range p.Syntax {
+		for _, d := range f.Decls {
+			gd, ok := d.(*ast.GenDecl)
+			if !ok || gd.Tok != token.VAR {
+				continue
+			}
+			for _, sp := range gd.Specs {
+				vs := sp.(*ast.ValueSpec)
+				for i, id := range vs.Names {
+					if id.Name != name || i >= len(vs.Values) {
+						continue
+					}
+					cl, ok := vs.Values[i].(*ast.CompositeLit)
+					if !ok {
+						return nil
+					}
+					keys := map[string]bool{}
+					for _, el := range cl.Elts {
+						var e ast.Expr = el
+						if kv, ok := el.(*ast.KeyValueExpr); ok {
+							e = kv.Key
+						}
+						if tv, ok := p.TypesInfo.Types[e]; ok && tv.Value != nil && tv.Value.Kind() == constant.String {
+							keys[constant.StringVal(tv.Value)] = true
+						}
+					}
+					return keys
+				}
+			}
+		}
+	}
+	return nil
 }
